@@ -1049,7 +1049,7 @@ func (loader *Loader) resolveSecuritySchemeRef(doc *T, component *SecurityScheme
 		loader.visitRef(ref)
 		if isSingleRefElement(ref) {
 			var scheme SecurityScheme
-			if _, err = loader.loadSingleElementFromURI(ref, documentPath, &scheme); err != nil {
+			if documentPath, err = loader.loadSingleElementFromURI(ref, documentPath, &scheme); err != nil {
 				return err
 			}
 			component.Value = &scheme
@@ -1098,7 +1098,7 @@ func (loader *Loader) resolveExampleRef(doc *T, component *ExampleRef, documentP
 		loader.visitRef(ref)
 		if isSingleRefElement(ref) {
 			var example Example
-			if _, err = loader.loadSingleElementFromURI(ref, documentPath, &example); err != nil {
+			if documentPath, err = loader.loadSingleElementFromURI(ref, documentPath, &example); err != nil {
 				return err
 			}
 			component.Value = &example
@@ -1216,7 +1216,7 @@ func (loader *Loader) resolveLinkRef(doc *T, component *LinkRef, documentPath *u
 		loader.visitRef(ref)
 		if isSingleRefElement(ref) {
 			var link Link
-			if _, err = loader.loadSingleElementFromURI(ref, documentPath, &link); err != nil {
+			if documentPath, err = loader.loadSingleElementFromURI(ref, documentPath, &link); err != nil {
 				return err
 			}
 			component.Value = &link
